@@ -5,6 +5,7 @@
 -/
 import ALV.Lemmas.C07Hash
 import ALV.Lemmas.C05Pow
+import ALV.Lemmas.C05Lists
 import ALV.Spec.C05
 import ALV.Common.Audit
 
@@ -312,6 +313,266 @@ theorem subst_ring_hom {f g h : ZF K} (hf : Valid f) (hg : Valid g) (hh : Valid 
       rw [div_mul_div_comm]
     rw [e]
     exact hA.bind fun a ha ea => hB.bind fun b hb eb => by rw [← ea, ← eb]; exact mul_den ha hb
+
+/-! ## C05.2 signal laws for causal filters, any input
+
+`Causal f`: a valid filter without negative delays whose denominator has a non-zero constant term
+(what `LinearFilter.__call__` accepts).  `call` is the model of `filt(seq, zero=0)` (C04's generated
+loop); `apply` is the specification (C04's difference equation, zero initial conditions).  Every
+statement: the *model operator* followed by the *model call* equals the composition of outputs. -/
+
+/-- **C05.2a** the call of a causal filter is its difference equation -/
+theorem call_eq_spec {f : ZF K} (hf : Causal f) (xs : List K) : call f xs = .ok (apply f xs) :=
+  call_eq_apply hf xs
+
+/-- causality is closed under the operators (so the laws below chain) -/
+theorem causal_closed {f g : ZF K} (hf : Causal f) (hg : Causal g) (c : K) (n : ℕ) :
+    (∃ h, add f g = .ok h ∧ Causal h) ∧ (∃ h, sub f g = .ok h ∧ Causal h) ∧
+    (∃ h, mul f g = .ok h ∧ Causal h) ∧ (∃ h, neg f = .ok h ∧ Causal h) ∧
+    (∃ h, mulScalar f c = .ok h ∧ Causal h) ∧ (∃ h, pow f (n : ℤ) = .ok h ∧ Causal h) ∧
+    (∃ h, C05.ofScalar c = Except.ok h ∧ Causal h) :=
+  ⟨add_causal hf hg, sub_causal hf hg, mul_causal hf hg, neg_causal hf, mulScalar_causal hf c,
+    pow_causal hf n, ofScalar_causal c⟩
+
+/-- **`(f+g)(x) = f(x) + g(x)`** -/
+theorem sig_add {f g : ZF K} (hf : Causal f) (hg : Causal g) (xs : List K) :
+    (add f g >>= fun h => call h xs) = .ok (addSig (apply f xs) (apply g xs)) := by
+  obtain ⟨h, e, hc, ev⟩ := den_causal (add_den hf.1 hg.1) (add_causal hf hg)
+  rw [e]
+  show call h xs = _
+  rw [call_eq_apply hc, apply_add hf hg hc ev]
+
+/-- **`(c·f)(x) = c·f(x)`**, for `f * c` and for the reflected `c * f` -/
+theorem sig_scale {f : ZF K} (hf : Causal f) (c : K) (xs : List K) :
+    (mulScalar f c >>= fun h => call h xs) = .ok (scaleSig c (apply f xs)) ∧
+    (rmulScalar c f >>= fun h => call h xs) = .ok (scaleSig c (apply f xs)) := by
+  obtain ⟨s, es, hs, vs⟩ := den_causal (ofScalar_den c) (ofScalar_causal c)
+  constructor
+  · obtain ⟨h, e, hc, ev⟩ := den_causal (mulScalar_den hf.1 c) (mulScalar_causal hf c)
+    rw [e]
+    show call h xs = _
+    rw [call_eq_apply hc, apply_scale hf hc hs c vs ev]
+  · unfold rmulScalar
+    rw [es]
+    obtain ⟨h, e, hc, ev⟩ := den_causal (mul_den hs.1 hf.1) (mul_causal hs hf)
+    show (mul s f >>= fun h => call h xs) = _
+    rw [e]
+    show call h xs = _
+    rw [call_eq_apply hc, apply_mul hs hf hc ev, apply_const hs c vs]
+
+/-- **`(f−g)(x) = f(x) − g(x)`** -/
+theorem sig_sub {f g : ZF K} (hf : Causal f) (hg : Causal g) (xs : List K) :
+    (sub f g >>= fun h => call h xs) = .ok (subSig (apply f xs) (apply g xs)) := by
+  obtain ⟨n, en, hn, vn⟩ := den_causal (neg_den hg.1) (neg_causal hg)
+  obtain ⟨s, es, hs, vs⟩ := den_causal (ofScalar_den (-1 : K)) (ofScalar_causal (-1 : K))
+  obtain ⟨h, e, hc, ev⟩ := den_causal (add_den hf.1 hn.1) (add_causal hf hn)
+  unfold C05.sub
+  rw [en]
+  show (add f n >>= fun h => call h xs) = _
+  rw [e]
+  show call h xs = _
+  have hneg : apply n xs = scaleSig (-1) (apply g xs) :=
+    apply_scale hg hn hs (-1) vs (by rw [vn, map_neg, map_neg, map_one, map_one, mul_neg, mul_one]) xs
+  rw [call_eq_apply hc, apply_add hf hn hc ev, hneg]
+  congr 1
+  simp only [addSig, subSig, scaleSig, List.zipWith_map_right]
+  congr 1
+  funext a b
+  ring
+
+/-- **`(f·g)(x) = f(g(x)) = g(f(x))`** -/
+theorem sig_mul {f g : ZF K} (hf : Causal f) (hg : Causal g) (xs : List K) :
+    (mul f g >>= fun h => call h xs) = .ok (apply f (apply g xs)) ∧
+    apply f (apply g xs) = apply g (apply f xs) := by
+  obtain ⟨h, e, hc, ev⟩ := den_causal (mul_den hf.1 hg.1) (mul_causal hf hg)
+  constructor
+  · rw [e]
+    show call h xs = _
+    rw [call_eq_apply hc, apply_mul hf hg hc ev]
+  · rw [← apply_mul hf hg hc ev, ← apply_mul hg hf hc (by rw [ev, _root_.mul_comm])]
+
+/-- **`f ≈ g → f(x) = g(x)`**: the output only depends on the rational function -/
+theorem sig_equiv {f g : ZF K} (hf : Causal f) (hg : Causal g) (h : f ≈ g) (xs : List K) :
+    call f xs = call g xs := by
+  rw [call_eq_apply hf, call_eq_apply hg, apply_congr hf hg ((equiv_iff_val hf.1 hg.1).1 h)]
+
+/-- **`((f/g)·g)(x) = f(x)`** for causal `f`, `g ≠ 0` — whatever delay `g` starts with: `f/g` need
+not be causal, the constructor cancels the common delay of `(f/g)·g` again -/
+theorem sig_div_mul {f g : ZF K} (hf : Causal f) (hg : Causal g) (hg0 : g.num ≠ []) (xs : List K) :
+    (truediv f g >>= fun q => mul q g >>= fun r => call r xs) = .ok (apply f xs) := by
+  obtain ⟨q, eq, hq, vq⟩ := truediv_den hf.1 hg.1 hg0
+  obtain ⟨r, er, hr, vr⟩ := mul_den hq hg.1
+  rw [eq]
+  show (mul q g >>= fun r => call r xs) = _
+  rw [er]
+  show call r xs = _
+  have hv : val r = val f := by rw [vr, vq, div_mul_cancel₀ _ (val_ne_zero hg.1 hg0)]
+  obtain ⟨hrd, hr0⟩ := mul_normal er
+  have hrc : Causal r := causal_of_val_eq hr hrd hr0 hf hv
+  rw [call_eq_apply hrc, apply_congr hrc hf hv]
+
+/-- **`(f**n)(x)` is `f` applied `n` times** -/
+theorem sig_pow {f : ZF K} (hf : Causal f) (n : ℕ) (xs : List K) :
+    (pow f (n : ℤ) >>= fun h => call h xs) = .ok (applyN f n xs) := by
+  induction n with
+  | zero =>
+    obtain ⟨h, e, hc, ev⟩ := den_causal (pow_den_nat hf.1 0) (pow_causal hf 0)
+    rw [e]
+    show call h xs = _
+    rw [call_eq_apply hc, apply_one hc (by rw [ev, pow_zero])]
+    rfl
+  | succ n ih =>
+    obtain ⟨p, ep, hp, vp⟩ := den_causal (pow_den_nat hf.1 n) (pow_causal hf n)
+    obtain ⟨h, e, hc, ev⟩ := den_causal (pow_den_nat hf.1 (n + 1)) (pow_causal hf (n + 1))
+    rw [ep] at ih
+    have ih' : call p xs = .ok (applyN f n xs) := ih
+    rw [call_eq_apply hp] at ih'
+    rw [e]
+    show call h xs = _
+    rw [call_eq_apply hc, apply_mul hf hp hc (by rw [ev, vp, pow_succ']), Except.ok.inj ih']
+    rfl
+
+/-- **`z**-k` delays by `k` samples** -/
+theorem sig_delay (k : ℕ) (xs : List K) :
+    (C05.z >>= fun zz => pow zz (-(k : ℤ)) >>= fun h => call h xs) = .ok (delay k xs) := by
+  obtain ⟨zz, ez, hz, vz⟩ := z_den (K := K)
+  have hz0 : zz.num ≠ [] := by
+    intro e
+    have := (val_eq_zero_iff hz).2 e
+    rw [vz] at this
+    exact T_ne_zero (-1) (ι_eq_zero.1 this)
+  obtain ⟨h, e, hv, ev⟩ := pow_den hz (-(k : ℤ)) (Or.inr hz0)
+  rw [ez]
+  show (pow zz (-(k : ℤ)) >>= fun h => call h xs) = _
+  rw [e]
+  show call h xs = _
+  have hval : val h = ι (T (k : ℤ)) := by
+    rw [ev, vz, ι_T, ι_T, ← zpow_mul]; simp
+  obtain ⟨hd, h0⟩ := pow_normal hz _ e
+  obtain ⟨cd, vd⟩ := causal_delay (K := K) k
+  have hc : Causal h := causal_of_val_eq hv hd h0 cd (by rw [hval, vd])
+  rw [call_eq_apply hc, apply_delay hc k hval]
+
+/-! ## C05.3 CascadeFilter / ParallelFilter equal the product / sum of the parts -/
+
+/-- **`cascade_eq_prod`** (output): calling a cascade of causal filters feeds each one with the
+output of the previous one, and that is the output of the product `reduce(mul, filters)` -/
+theorem cascade_eq_prod (f : ZF K) (t : List (ZF K)) (hc : ∀ g ∈ f :: t, Causal g) (xs : List K) :
+    cascadeCall (f :: t) xs = .ok (cascadeApply (f :: t) xs) ∧
+    ∃ h, prodFilters (f :: t) = .ok h ∧ Causal h ∧ call h xs = cascadeCall (f :: t) xs := by
+  refine ⟨cascadeCall_eq _ hc xs, ?_⟩
+  obtain ⟨h, e, c, _, a⟩ := foldlM_mul_spec t (fun g hg => hc g (List.mem_cons_of_mem _ hg))
+    (hc f List.mem_cons_self)
+  refine ⟨h, e, c, ?_⟩
+  rw [call_eq_apply c, cascadeCall_eq _ hc xs, a xs]
+  rfl
+
+/-- **`parallel_eq_sum`** (output): calling filters in parallel adds their outputs, and that is the
+output of the sum `reduce(add, filters)`; without filters the output is the zero value per input -/
+theorem parallel_eq_sum (f : ZF K) (t : List (ZF K)) (hc : ∀ g ∈ f :: t, Causal g) (xs : List K) :
+    parallelCall (f :: t) xs = .ok (parallelApply (f :: t) xs) ∧
+    parallelCall ([] : List (ZF K)) xs = .ok (xs.map fun _ => 0) ∧
+    ∃ h, sumFilters (f :: t) = .ok h ∧ Causal h ∧ call h xs = parallelCall (f :: t) xs := by
+  have ht : ∀ g ∈ t, Causal g := fun g hg => hc g (List.mem_cons_of_mem _ hg)
+  have hp : parallelCall (f :: t) xs = .ok (parallelApply (f :: t) xs) := by
+    simp only [parallelCall]
+    rw [call_eq_apply (hc f List.mem_cons_self)]
+    show List.foldlM _ (apply f xs) t = _
+    rw [parallelFold_eq t ht xs, parallelApply_cons]
+  refine ⟨hp, rfl, ?_⟩
+  obtain ⟨h, e, c, _, a⟩ := foldlM_add_spec t ht (hc f List.mem_cons_self)
+  refine ⟨h, e, c, ?_⟩
+  rw [call_eq_apply c, hp, a xs, parallelApply_cons]
+
+/-- **`cascade_polys`**: `CascadeFilter.numpoly` / `.denpoly` are the products of the numerators /
+denominators — the polynomials of the product filter up to `≈` (exactly: before normalisation) -/
+theorem cascade_polys (f : ZF K) (t : List (ZF K)) (hv : ∀ g ∈ f :: t, Valid g) :
+    ∃ n d h, cascadeNumpoly (f :: t) = .ok n ∧ cascadeDenpoly (f :: t) = .ok d ∧
+      toLaurent n = ((f :: t).map N).prod ∧ toLaurent d = ((f :: t).map D).prod ∧
+      prodFilters (f :: t) = .ok h ∧ Valid h ∧ (⟨n, d⟩ : ZF K) ≈ h := by
+  have hprod : ∀ (t : List (ZF K)) (f0 : ZF K), Valid f0 → (∀ g ∈ t, Valid g) →
+      ∃ h, t.foldlM mul f0 = .ok h ∧ Valid h ∧ val h = val f0 * (t.map val).prod := by
+    intro t
+    induction t with
+    | nil => intro f0 h0 _; exact ⟨f0, rfl, h0, by simp⟩
+    | cons g t ih =>
+      intro f0 h0 hgs
+      obtain ⟨h1, e1, v1, w1⟩ := mul_den h0 (hgs g List.mem_cons_self)
+      obtain ⟨h, e, v, w⟩ := ih h1 v1 (fun x hx => hgs x (List.mem_cons_of_mem _ hx))
+      exact ⟨h, by rw [List.foldlM_cons, e1]; exact e, v, by rw [w, w1]; simp [_root_.mul_assoc]⟩
+  obtain ⟨h, e, v, w⟩ := hprod t f (hv f List.mem_cons_self) (fun g hg => hv g (List.mem_cons_of_mem _ hg))
+  have hn : toLaurent (t.foldl (fun acc g => C07.mul acc g.num) f.num) = ((f :: t).map N).prod := by
+    have := toLaurent_foldl_mul (t.map (·.num)) f.num
+    rw [List.foldl_map, List.map_map] at this
+    rw [this, List.map_cons, List.prod_cons]
+    rfl
+  have hd : toLaurent (t.foldl (fun acc g => C07.mul acc g.den) f.den) = ((f :: t).map D).prod := by
+    have := toLaurent_foldl_mul (t.map (·.den)) f.den
+    rw [List.foldl_map, List.map_map] at this
+    rw [this, List.map_cons, List.prod_cons]
+    rfl
+  refine ⟨t.foldl (fun acc g => C07.mul acc g.num) f.num, t.foldl (fun acc g => C07.mul acc g.den) f.den, h,
+    by simp [cascadeNumpoly, prodPolys, List.foldl_map], by simp [cascadeDenpoly, prodPolys, List.foldl_map],
+    hn, hd, e, v, ?_⟩
+  -- both denote Π N / Π D
+  have hdne : ∀ (l : List (ZF K)), (∀ g ∈ l, Valid g) → (l.map D).prod ≠ 0 := by
+    intro l hl
+    apply List.prod_ne_zero
+    intro h0
+    obtain ⟨g, hg, e0⟩ := List.mem_map.1 h0
+    exact D_ne_zero (hl g hg) e0
+  have hval : ∀ (l : List (ZF K)), (∀ g ∈ l, Valid g) →
+      ι ((l.map N).prod) / ι ((l.map D).prod) = (l.map val).prod := by
+    intro l
+    induction l with
+    | nil => intro _; simp
+    | cons g l ih =>
+      intro hl
+      simp only [List.map_cons, List.prod_cons, map_mul]
+      rw [← ih (fun x hx => hl x (List.mem_cons_of_mem _ hx)), ← div_mul_div_comm]
+      rfl
+  unfold ALV.C05.Equiv N D
+  show toLaurent (t.foldl (fun acc g => C07.mul acc g.num) f.num) * toLaurent h.den
+    = toLaurent h.num * toLaurent (t.foldl (fun acc g => C07.mul acc g.den) f.den)
+  rw [hn, hd]
+  have hw : val h = ((f :: t).map val).prod := by rw [w]; simp
+  rw [← hval (f :: t) hv] at hw
+  unfold val at hw
+  rw [div_eq_div_iff (ιD_ne_zero v) (fun e0 => hdne (f :: t) hv (ι_eq_zero.1 e0)), ← map_mul, ← map_mul] at hw
+  have := ι_inj hw
+  show _ * D h = N h * _
+  rw [← this, _root_.mul_comm]
+
+/-- **`parallel_polys`** (repaired shape, D12): with `denpoly` taken from the same reduced sum as
+`numpoly`, the pair *is* the sum filter, which denotes `Σ fᵢ` -/
+theorem parallel_polys_fixed (f : ZF K) (t : List (ZF K)) (hv : ∀ g ∈ f :: t, Valid g) :
+    ∃ h, sumFilters (f :: t) = .ok h ∧ Valid h ∧
+      parallelNumpoly (f :: t) = .ok h.num ∧ parallelDenpolyFixed (f :: t) = .ok h.den ∧
+      val h = ((f :: t).map val).sum := by
+  have hsum : ∀ (t : List (ZF K)) (f0 : ZF K), Valid f0 → (∀ g ∈ t, Valid g) →
+      ∃ h, t.foldlM add f0 = .ok h ∧ Valid h ∧ val h = val f0 + (t.map val).sum := by
+    intro t
+    induction t with
+    | nil => intro f0 h0 _; exact ⟨f0, rfl, h0, by simp⟩
+    | cons g t ih =>
+      intro f0 h0 hgs
+      obtain ⟨h1, e1, v1, w1⟩ := add_den h0 (hgs g List.mem_cons_self)
+      obtain ⟨h, e, v, w⟩ := ih h1 v1 (fun x hx => hgs x (List.mem_cons_of_mem _ hx))
+      exact ⟨h, by rw [List.foldlM_cons, e1]; exact e, v, by rw [w, w1]; simp [_root_.add_assoc]⟩
+  obtain ⟨h, e, v, w⟩ := hsum t f (hv f List.mem_cons_self) (fun g hg => hv g (List.mem_cons_of_mem _ hg))
+  have es : sumFilters (f :: t) = .ok h := e
+  exact ⟨h, es, v, by simp [parallelNumpoly, es], by simp [parallelDenpolyFixed, es], by rw [w]; simp⟩
+
+/-- … and the code as it stands does **not** have that property (defect D12): `numpoly` comes from
+the reduced sum (same-denominator shortcut: `2·num / den`) while `denpoly` is the product `den²`.
+Witness: `ParallelFilter(f, f)` with `f = (1 + z⁻¹)/(1 − z⁻¹/2)`. -/
+theorem parallel_polys_as_coded_wrong :
+    ∃ fs : List (ZF Rat),
+      (do let n ← parallelNumpoly fs
+          let d ← parallelDenpoly fs
+          let s ← sumFilters fs
+          pure (rEquiv (⟨n, d⟩ : ZF Rat) s)) = Except.ok false :=
+  ⟨[⟨[(0, 1), (1, 1)], [(0, 1), (1, -1/2)]⟩, ⟨[(0, 1), (1, 1)], [(0, 1), (1, -1/2)]⟩], by decide +kernel⟩
 
 /-! ### C05.4 `==`, `!=`, `hash` -/
 
